@@ -248,8 +248,12 @@ structure Cfg where
   minSize : Nat
   maxSize : Nat
   retries : Nat
-  fixedChallenge : Bool := false   -- repaired getValue
+  fixedChallenge : Bool := false   -- repaired getValue (F5): bounds check before slicing
   noPrune : Bool := false
+  fixedEmpty : Bool := false       -- repaired downloadBlob: "" is rejected as an invalid digest
+  fixedDup : Bool := false         -- repaired skipVerify: the first answer for a digest is kept
+  verifyEarly : Bool := false      -- repaired PullModel (F6): every fresh layer is verified right after
+                                   -- its download; there is no verify loop (and no skipVerify) afterwards
 
 /-- request counters + the token script -/
 structure Net where
@@ -409,15 +413,16 @@ def runParts (cfg : Cfg) (content : Bytes) :
       let (ok2, file', ps', c2) := runParts cfg content ps scs s'.file c1
       (ok1 && ok2, file', s'.p :: ps', c2)
 
+def replyFails {α : Type} : Reply α → Bool
+  | .pass _ => false
+  | _ => true
+
 /-- the direct-URL loop of `run` (retries every error with backoff for 30 s) -/
 def directLoop (cfg : Cfg) (realm : Bytes) (dflt : Reply DirRep) :
     Nat → List (Reply DirRep) → Net → R Unit × Net
   | 0, _, net => (.err .deadline, { net with dStar := true })
   | f + 1, s, net =>
-    let dfltFails := match dflt with
-      | .pass _ => false
-      | _ => true
-    if s.isEmpty && dfltFails then (.err .deadline, { net with dStar := true })
+    if s.isEmpty && replyFails dflt then (.err .deadline, { net with dStar := true })
     else
       match mrr cfg realm dflt 2 s net with
       | (.ok .redirect, _, net', n) => (.ok (), { net' with nd := net'.nd + n })
@@ -471,28 +476,41 @@ def getSkip (d : Digest) : List (Digest × Bool) → Bool
   | [] => false
   | (k, w) :: t => if k = d then w else getSkip d t
 
+def hasKey (d : Digest) : List (Digest × Bool) → Bool
+  | [] => false
+  | (k, _) :: t => if k = d then true else hasKey d t
+
+/-- `skipVerify[d] = v` (pinned) / `if _, seen := skipVerify[d]; !seen { skipVerify[d] = v }` (repaired) -/
+def markSkip (cfg : Cfg) (d : Digest) (v : Bool) (sk : List (Digest × Bool)) : List (Digest × Bool) :=
+  if cfg.fixedDup && hasKey d sk then sk else setSkip d v sk
+
 structure DlState where
   st : Store
   net : Net
   skip : List (Digest × Bool)
   renamed : List Digest       -- digests renamed into place by this attempt (in order)
 
-/-- the download loop of `PullModel` -/
-def dlLoop (cfg : Cfg) (reg : Registry) (sc : Scripts) : List Layer → DlState → Outcome × DlState
+/-- the download loop of `PullModel` (with the inline verification of the repaired variant) -/
+def dlLoop (cfg : Cfg) (hash : Bytes → Digest) (reg : Registry) (sc : Scripts) :
+    List Layer → DlState → Outcome × DlState
   | [], s => (.ok (), s)
   | l :: ls, s =>
     match l.digest with
     | .bad => (.err .digestFormat, s)
-    | .empty => (.panic .emptyDigest, s)
+    | .empty => if cfg.fixedEmpty then (.err .digestFormat, s) else (.panic .emptyDigest, s)
     | .ok d =>
       match s.st.blobs d with
-      | some _ => dlLoop cfg reg sc ls { s with skip := setSkip d true s.skip }
+      | some _ => dlLoop cfg hash reg sc ls { s with skip := markSkip cfg d true s.skip }
       | none =>
         match downloadLayer cfg reg d (lookupS d sc.layers) (s.st.partials d) s.net with
         | (.ok c, pa, net') =>
-          dlLoop cfg reg sc ls
-            { st := { s.st with blobs := upd s.st.blobs d (some c), partials := upd s.st.partials d pa }
-              net := net', skip := setSkip d false s.skip, renamed := s.renamed ++ [d] }
+          if cfg.verifyEarly && hash c != d then
+            -- renamed into place, verified at once, removed again
+            (.err .digestMismatch, { s with st := { s.st with partials := upd s.st.partials d pa }, net := net' })
+          else
+            dlLoop cfg hash reg sc ls
+              { st := { s.st with blobs := upd s.st.blobs d (some c), partials := upd s.st.partials d pa }
+                net := net', skip := markSkip cfg d false s.skip, renamed := s.renamed ++ [d] }
         | (.err e, pa, net') =>
           (.err e, { s with st := { s.st with partials := upd s.st.partials d pa }, net := net' })
         | (.panic p, pa, net') =>
@@ -546,11 +564,11 @@ def pull (cfg : Cfg) (hash : Bytes → Digest) (name : Name) (reg : Registry) (s
   | (.ok .served, _, net1, n) =>
     let m := reg.manifest
     let layers := m.all
-    match dlLoop cfg reg sc layers ⟨st, { net1 with nm := n }, [], []⟩ with
+    match dlLoop cfg hash reg sc layers ⟨st, { net1 with nm := n }, [], []⟩ with
     | (.err e, s) => (.err e, s.st, ⟨s.net, s.renamed⟩)
     | (.panic p, s) => (.panic p, s.st, ⟨s.net, s.renamed⟩)
     | (.ok (), s) =>
-      match verifyLoop hash s.skip layers s.st with
+      match (if cfg.verifyEarly then (.ok (), s.st) else verifyLoop hash s.skip layers s.st) with
       | (.err e, st2) => (.err e, st2, ⟨s.net, s.renamed⟩)
       | (.panic p, st2) => (.panic p, st2, ⟨s.net, s.renamed⟩)
       | (.ok (), st2) =>
